@@ -350,7 +350,7 @@ def _r08b(ctx, methods, floor):
 
 @rule(
     "R08b",
-    ["C08", "C19"],
+    ["C08", "C19", "C16"],
     """NO NON-DETERMINISTIC SOURCE in naming code (_name, _funcname, token, _token, __dask_tokenize__, checksum), in
     plan construction (_simplify_*, _tune_*, _lower, _divisions, _meta, npartitions) or in task builders (_layer,
     _task, _filtered_task), including same-class / module helpers they call: uuid, time, random, unseeded
